@@ -112,7 +112,7 @@ func checkMTCP(p *core.Program, r *core.Report) {
 			case "bufio.Writer.Flush":
 				flush = s.call
 			case cbor + ".WriteByteStringLen":
-				if k, isC := core.ConstInt(core.CallArgs(s.call)[0]); isC && k == 0 {
+				if k, isC := core.ConstInt(core.Arg(s.call, 0)); isC && k == 0 {
 					probe = s.call
 				} else {
 					hdr = s.call
@@ -122,13 +122,13 @@ func checkMTCP(p *core.Program, r *core.Report) {
 		if marshal == nil || hdr == nil || payload == nil {
 			r.Fail("mtcp/"+fname(send)+"/frame", "a frame is a byte-string header announcing exactly the length of the serialised bundle, followed by those bytes", p.Pos(send.Pos()), "marshal / header / payload step not found")
 		} else {
-			buf := core.Strip(core.CallArgs(marshal)[1])
+			buf := core.Strip(core.Arg(marshal, 1))
 			okHdr := false
-			if lc, ok := core.Strip(core.CallArgs(hdr)[0]).(*ssa.Call); ok && core.CalleeName(lc) == "bytes.Buffer.Len" && core.CallRecv(lc) == buf {
+			if lc, ok := core.Strip(core.Arg(hdr, 0)).(*ssa.Call); ok && core.CalleeName(lc) == "bytes.Buffer.Len" && core.CallRecv(lc) == buf {
 				okHdr = true
 			}
-			okPayload := core.CallRecv(payload) == buf && core.Strip(core.CallArgs(payload)[0]) == core.Strip(core.CallArgs(hdr)[1])
-			okBundle := core.TypeIs(core.Strip(core.CallArgs(marshal)[0]).Type(), bp7, "Bundle")
+			okPayload := core.CallRecv(payload) == buf && core.Strip(core.Arg(payload, 0)) == core.Strip(core.Arg(hdr, 1))
+			okBundle := core.TypeIs(core.Strip(core.Arg(marshal, 0)).Type(), bp7, "Bundle")
 			okOrder := core.MustPassBefore(hdr, func(i ssa.Instruction) bool { return i == marshal.(ssa.Instruction) }) &&
 				core.MustPassBefore(payload, func(i ssa.Instruction) bool { return i == hdr.(ssa.Instruction) })
 			r.Check(okHdr && okPayload && okBundle && okOrder, "mtcp/"+fname(send)+"/frame", "a frame is a byte-string header announcing exactly the length of the serialised bundle, followed by those bytes", p.Pos(hdr.Pos()), "", fmt.Sprintf("header=len(buffer): %v, payload is that buffer on the same writer: %v, buffer holds the bundle: %v, order marshal<header<payload: %v", okHdr, okPayload, okBundle, okOrder))
@@ -137,9 +137,9 @@ func checkMTCP(p *core.Program, r *core.Report) {
 		if flush == nil || probe == nil || hdr == nil || payload == nil {
 			r.Fail("mtcp/"+fname(send)+"/probe", probeRule, p.Pos(send.Pos()), "flush or probe step not found")
 		} else {
-			okFlush := core.CallRecv(flush) == core.Strip(core.CallArgs(hdr)[1]) &&
+			okFlush := core.CallRecv(flush) == core.Strip(core.Arg(hdr, 1)) &&
 				core.MustPassBefore(flush, func(i ssa.Instruction) bool { return i == payload.(ssa.Instruction) })
-			okProbe := pathEndsWith(core.Strip(core.CallArgs(probe)[1]), "conn")
+			okProbe := pathEndsWith(core.Strip(core.Arg(probe, 1)), "conn")
 			okAfter := core.MustPassBefore(probe, func(i ssa.Instruction) bool { return i == flush.(ssa.Instruction) })
 			r.Check(okFlush && okProbe && okAfter, "mtcp/"+fname(send)+"/probe", probeRule, p.Pos(probe.Pos()), "", fmt.Sprintf("flush of the frame writer after the payload: %v, probe written to conn itself: %v, probe after the flush: %v", okFlush, okProbe, okAfter))
 		}
@@ -192,8 +192,8 @@ func checkMTCP(p *core.Program, r *core.Report) {
 		return
 	}
 	hdr, un := hdrs[0].(*ssa.Call), uns[0].(*ssa.Call)
-	sameReader := core.Strip(core.CallArgs(hdr)[0]) == core.Strip(core.CallArgs(un)[1])
-	okB := core.TypeIs(core.Strip(core.CallArgs(un)[0]).Type(), bp7, "Bundle")
+	sameReader := core.Strip(core.Arg(hdr, 0)) == core.Strip(core.Arg(un, 1))
+	okB := core.TypeIs(core.Strip(core.Arg(un, 0)).Type(), bp7, "Bundle")
 	// Unmarshal reached only with header ok and n != 0
 	conds := core.DominatingConds(un.Block())
 	okErr := errNilGuard(conds, hdr)
@@ -259,7 +259,7 @@ func checkBBC(p *core.Program, r *core.Report) {
 						okTid = true
 					}
 					if core.NameIs(core.CalleeName(cc), bbcPkg+".Fragment.SequenceNumber") {
-						if nc, ok := pair[1].(*ssa.Call); ok && core.NameIs(core.CalleeName(nc), bbcPkg+".nextSequenceNumber") && pathEndsWith(core.CallArgs(nc)[0], "prevSequenceNo") {
+						if nc, ok := pair[1].(*ssa.Call); ok && core.NameIs(core.CalleeName(nc), bbcPkg+".nextSequenceNumber") && pathEndsWith(core.Arg(nc, 0), "prevSequenceNo") {
 							okSeq = true
 						}
 					}
